@@ -259,6 +259,14 @@ Definition struct_eqb (a b : struct_t) : bool :=
       && forallb (fun x => String.eqb (fst (fst x)) (fst (snd x)) && sb_eqb (snd (fst x)) (snd (snd x))) (combine r r')
   end.
 
+(** syntactic equality of defs (used for the same-stem observation) *)
+Definition fdef_eqb (a b : fdef) : bool := expr_eqb (fst a) (fst b) && str_list_eqb (snd a) (snd b).
+
+(** the enumeration order of free_symbols the implementation actually used, per expression (read off the
+    argument lists of the built Model); any other expression: occurrence order *)
+Definition fs_tab (tab : list (expr * list string)) (e : expr) : list string :=
+  match find (fun p => expr_eqb e (fst p)) tab with Some p => snd p | None => fsyms e end.
+
 (** one correspondence case *)
 Record case := mkCase {
   c_tm : tmodel;
@@ -267,36 +275,20 @@ Record case := mkCase {
   c_keys : list string;                 (* def names found in the generated file, in order *)
   c_struct : option struct_t;           (* None: create_model() raised NameError *)
   c_obs : outcome (obs_t (V := Q));
-  c_values : bool                       (* false: transcendental math, values are not compared in Coq *)
+  c_values : bool;                      (* false: transcendental math, values are not compared in Coq *)
+  c_fs : list (expr * list string)      (* free_symbols orders observed on the implementation *)
 }.
 
 Definition case_ok (F : facts) (c : case) : bool :=
-  let g := generate F (codegen F fsyms (c_tm c)) in
-  let om := exec (out_name F (c_stem c)) g in
-  str_list_eqb (map fst (g_fns g)) (c_keys c)
+  let og := generate F (codegen F (fs_tab (c_fs c)) (c_tm c)) in
+  let om := match og with Some g => exec (out_name F (c_stem c)) g | None => None end in
+  str_list_eqb (match og with Some g => map fst (g_fns g) | None => [] end) (c_keys c)
   && match om, c_struct c with
      | Some m, Some s => struct_eqb (struct_of m) s
      | None, None => true
      | _, _ => false
      end
   && (negb (c_values c) || obs_match (observe q_alg om (c_states c)) (c_obs c)).
-
-(** syntactic equality of defs (used for the same-stem observation) *)
-Fixpoint expr_eqb (a b : expr) : bool :=
-  match a, b with
-  | ENum f q, ENum f' q' => Bool.eqb f f' && Qeq_bool q q'
-  | ESym s, ESym s' => String.eqb s s'
-  | EBin o x y, EBin o' x' y' =>
-      match o, o' with OAdd, OAdd | OMul, OMul => true | _, _ => false end && expr_eqb x x' && expr_eqb y y'
-  | EPow x n, EPow x' n' => expr_eqb x x' && Z.eqb n n'
-  | EPw v r x y e, EPw v' r' x' y' e' =>
-      match r, r' with RLt, RLt | RLe, RLe | RGt, RGt | RGe, RGe => true | _, _ => false end
-      && expr_eqb v v' && expr_eqb x x' && expr_eqb y y' && expr_eqb e e'
-  | EFun f x, EFun f' x' => String.eqb f f' && expr_eqb x x'
-  | _, _ => false
-  end.
-
-Definition fdef_eqb (a b : fdef) : bool := expr_eqb (fst a) (fst b) && str_list_eqb (snd a) (snd b).
 
 (** two documents in one session: does inspect.getsource on the FIRST model's reaction function
     [fname] still return that function's own def after the second read? *)
@@ -315,3 +307,14 @@ Definition source_kept (F : facts) (stem1 stem2 : string) (tm1 tm2 : tmodel) (fn
           end
       end
   end.
+
+(** syntactic equality of transformed models (the fixed witnesses of SbmlWitness.v are compared with
+    what pysbml returns today) *)
+Definition alist_eqb {X} (eqb : X -> X -> bool) (a b : list (string * X)) : bool :=
+  Nat.eqb (length a) (length b)
+  && forallb (fun p => String.eqb (fst (fst p)) (fst (snd p)) && eqb (snd (fst p)) (snd (snd p))) (combine a b).
+Definition trxn_eqb (a b : trxn) : bool := expr_eqb (tr_expr a) (tr_expr b) && alist_eqb expr_eqb (tr_st a) (tr_st b).
+Definition tmodel_eqb (a b : tmodel) : bool :=
+  alist_eqb Qeq_bool (t_vars a) (t_vars b) && alist_eqb Qeq_bool (t_pars a) (t_pars b)
+  && alist_eqb expr_eqb (t_der a) (t_der b) && alist_eqb trxn_eqb (t_rxn a) (t_rxn b)
+  && alist_eqb expr_eqb (t_ia a) (t_ia b).
